@@ -1561,6 +1561,19 @@ func (c *Cluster) PinUpdate(ctx context.Context, from cid.Cid, to cid.Cid, opts 
 		return nil, errors.New("this pin type cannot be updated")
 	}
 
+	// The update writes an entry for "to": when that CID is already
+	// pinned, the same restrictions as for re-pinning it apply.
+	if target, err := c.PinGet(ctx, to); err == nil && !to.Equals(from) {
+		if target.Type != existing.Type {
+			return nil, fmt.Errorf("cannot update onto a CID tracked as %s", target.Type)
+		}
+		if target.Mode == api.PinModeRecursive && existing.Mode != api.PinModeRecursive {
+			return nil, errors.New("cannot update a recursively pinned CID from a direct pin. Unpin it first")
+		}
+	} else if err != nil && err != state.ErrNotFound {
+		return nil, err
+	}
+
 	existing.Cid = to
 	existing.PinUpdate = from
 	if opts.Name != "" {
